@@ -211,6 +211,10 @@ package api
 //@   at call (*DatabaseAPI).send ghost last = arg2
 //@   at after (*Interface).Put ghost wrote = wrote + 1
 //@   at after (*Interface).Put ghost werr = ret0
+// no message crashes the process: values are only inserted through an accessor that exists (a
+// record stored in a format without accessor has none; the handler runs in a goroutine of its own,
+// so a nil dereference there takes the process down)
+//@   at call (Result).ForEach assert acc != nil
 //@   ensures sends == 1 && (last == dbMsgTypeSuccess || last == dbMsgTypeError)
 //@   ensures last == dbMsgTypeSuccess ==> wrote == 1 && werr == nil
 
